@@ -116,12 +116,44 @@ def run_live(case: dict) -> dict:
         common.rm(work)
 
 
+def foreign_tmpdir() -> str | None:
+    """A temporary directory on ANOTHER file system than the datasets: the writer's environment then is one in
+    which a 'write to a temporary file, then move it into place' that leaves the dataset directory stops being
+    one atomic rename.  (The unchanged tree keeps its temporary files beside their targets, so this changes
+    nothing for it.)"""
+    if "tmp" not in _SERVER:
+        _SERVER["tmp"] = None
+        try:
+            candidate = f"/dev/shm/rtmon-c06-{os.getpid()}"
+            os.makedirs(candidate, exist_ok=True)
+            if os.stat(candidate).st_dev != os.stat(common.WORK_ROOT).st_dev:
+                _SERVER["tmp"] = candidate
+                import atexit
+                import shutil
+                atexit.register(shutil.rmtree, candidate, True)
+        except OSError:
+            pass
+    return _SERVER["tmp"]
+
+
+def finalize(_ctx, _records) -> None:
+    """Parent, after all cases: drop the (empty) foreign temporary directories of workers that are gone."""
+    import glob
+    import shutil
+    for path in glob.glob("/dev/shm/rtmon-c06-*"):
+        pid = path.rsplit("-", 1)[-1]
+        if not (pid.isdigit() and os.path.exists(f"/proc/{pid}")):
+            shutil.rmtree(path, ignore_errors=True)
+
+
 def server():
     proc = _SERVER.get("proc")
     if proc is None or proc.poll() is not None:
+        env = dict(os.environ, PYTHONPATH=str(common.VERIF))
+        if foreign_tmpdir():
+            env["TMPDIR"] = foreign_tmpdir()
         proc = subprocess.Popen([common.PY, "-m", "rtmon.crash_server"], stdin=subprocess.PIPE, stdout=subprocess.PIPE,
-                                stderr=subprocess.DEVNULL, cwd=str(common.VERIF),
-                                env=dict(os.environ, PYTHONPATH=str(common.VERIF)), text=True, bufsize=1)
+                                stderr=subprocess.DEVNULL, cwd=str(common.VERIF), env=env, text=True, bufsize=1)
         ready = json.loads(proc.stdout.readline())
         assert ready.get("ready")
         _SERVER["proc"] = proc
@@ -268,6 +300,7 @@ def run_case(case: dict) -> dict:
                 obs["injection_not_reached"] += 1
                 continue
             obs["processes_killed"] += 1
+            obs["kills_with_writer_tmpdir_on_another_filesystem"] += int(bool(foreign_tmpdir()))
             obs[f"crash_points:{point['syscall']}"] += 1
             problems = audit_state(state, committed_ids, attempted)
             obs["crash_states_audited"] += 1
